@@ -26,37 +26,54 @@ import (
 	"github.com/vmihailenco/msgpack/v5"
 )
 
+// Windows: secrets shorter than 64 bytes (e-mail, user, preferred username, opaque access / refresh tokens) are
+// searched by every 8-byte window; long ones (JWTs, which are base64 of low-entropy JSON) by every 16-byte window —
+// an 8-character window of base64-of-hex text has only 2^24 values and collides by chance with the (public, hex)
+// ticket id. hex form = hex of the window; base64 form = base64 of a 9- resp. 15-byte window (a whole number of
+// characters), taken at EVERY start offset, which covers all three alignments.
 type c02Secrets struct {
-	mu    sync.Mutex
-	raw8  map[string]string // 8-byte window of a secret -> label
-	hex16 map[string]string // hex of an 8-byte window (lower and upper case)
-	b6412 map[string]string // base64 (std and url alphabet) of a 9-byte window = 12 characters; every start offset, hence all alignments
-	n     int
+	mu   sync.Mutex
+	win  map[int]map[string]c02Win // window length in the searched text -> window -> what it is
+	lens []int
+	n    int
 }
 
-func c02NewSecrets() *c02Secrets {
-	return &c02Secrets{raw8: map[string]string{}, hex16: map[string]string{}, b6412: map[string]string{}}
+type c02Win struct{ Label, Form string }
+
+func c02NewSecrets() *c02Secrets { return &c02Secrets{win: map[int]map[string]c02Win{}} }
+
+func (s *c02Secrets) put(w, label, form string) {
+	m := s.win[len(w)]
+	if m == nil {
+		m = map[string]c02Win{}
+		s.win[len(w)] = m
+		s.lens = append(s.lens, len(w))
+	}
+	m[w] = c02Win{label, form}
 }
 
-// Add registers every >= 8-byte window of secret (9 bytes for the base64 forms: a whole number of characters).
 func (s *c02Secrets) Add(label, secret string) {
-	if len(secret) < 9 {
+	raw, b64 := 8, 9
+	if len(secret) >= 64 {
+		raw, b64 = 16, 15
+	}
+	if len(secret) < b64 {
 		return
 	}
 	s.mu.Lock()
 	defer s.mu.Unlock()
 	s.n++
-	for k := 0; k+8 <= len(secret); k++ {
-		w := secret[k : k+8]
-		s.raw8[w] = label
+	for k := 0; k+raw <= len(secret); k++ {
+		w := secret[k : k+raw]
+		s.put(w, label, "raw")
 		h := hex.EncodeToString([]byte(w))
-		s.hex16[h] = label
-		s.hex16[strings.ToUpper(h)] = label
+		s.put(h, label, "hex")
+		s.put(strings.ToUpper(h), label, "hex")
 	}
-	for k := 0; k+9 <= len(secret); k++ {
-		w := []byte(secret[k : k+9])
-		s.b6412[base64.StdEncoding.EncodeToString(w)] = label
-		s.b6412[base64.URLEncoding.EncodeToString(w)] = label
+	for k := 0; k+b64 <= len(secret); k++ {
+		w := []byte(secret[k : k+b64])
+		s.put(base64.StdEncoding.EncodeToString(w), label, "base64")
+		s.put(base64.URLEncoding.EncodeToString(w), label, "base64")
 	}
 }
 
@@ -73,18 +90,12 @@ type c02Leak struct {
 func (s *c02Secrets) scan(path string, b []byte) *c02Leak {
 	s.mu.Lock()
 	defer s.mu.Unlock()
-	for i := 0; i+8 <= len(b); i++ {
-		if l, ok := s.raw8[string(b[i:i+8])]; ok {
-			return &c02Leak{Secret: l, Form: "raw", Stage: path, Window: string(b[i : i+8])}
-		}
-		if i+12 <= len(b) {
-			if l, ok := s.b6412[string(b[i:i+12])]; ok {
-				return &c02Leak{Secret: l, Form: "base64", Stage: path, Window: string(b[i : i+12])}
-			}
-		}
-		if i+16 <= len(b) {
-			if l, ok := s.hex16[string(b[i:i+16])]; ok {
-				return &c02Leak{Secret: l, Form: "hex", Stage: path, Window: string(b[i : i+16])}
+	for i := 0; i < len(b); i++ {
+		for _, n := range s.lens {
+			if i+n <= len(b) {
+				if w, ok := s.win[n][string(b[i:i+n])]; ok {
+					return &c02Leak{Secret: w.Label, Form: w.Form, Stage: path, Window: string(b[i : i+n])}
+				}
 			}
 		}
 	}
@@ -145,9 +156,11 @@ func c02Stages(v []byte) []c02Stage {
 			if d, err := io.ReadAll(io.LimitReader(lz4.NewReader(bytes.NewReader(bb)), 4<<20)); len(d) >= 8 && (err == nil || len(d) > 16) {
 				add(fmt.Sprintf("%s/lz4frame@%d", path, off), d, depth+1)
 			}
-			dst := make([]byte, 1<<16)
-			if n, err := lz4.UncompressBlock(bb, dst); len(bb) < 1<<15 && err == nil && n >= 8 {
-				add(fmt.Sprintf("%s/lz4block@%d", path, off), dst[:n], depth+1)
+			if len(bb) < 1<<15 {
+				dst := make([]byte, 1<<16)
+				if n, err := lz4.UncompressBlock(bb, dst); err == nil && n >= 8 {
+					add(fmt.Sprintf("%s/lz4block@%d", path, off), dst[:n], depth+1)
+				}
 			}
 			if flat, ok := c02MsgpackStrings(bb); ok {
 				for i, f := range flat {
@@ -300,8 +313,10 @@ func (s *c02Secrets) Recover(v string) (*c02Leak, int) {
 func c02ScannerSelfTest() error {
 	sec := c02NewSecrets()
 	const email, at = "carol.selftest@corp.example", "at-77-0011223344556677"
+	idt := "eyJhbGciOiJSUzI1NiJ9." + base64.RawURLEncoding.EncodeToString([]byte(`{"sub":"u-selftest","blob":"00112233445566778899aabbccddeeff00112233445566778899"}`)) + ".c2lnbmF0dXJlc2lnbmF0dXJl"
 	sec.Add("email", email)
 	sec.Add("access_token", at)
+	sec.Add("id_token", idt)
 	packed, err := msgpack.Marshal(map[string]interface{}{"e": email, "at": at, "g": []string{"x", "y"}, "n": []byte{1, 2, 3}})
 	if err != nil {
 		return err
@@ -315,6 +330,9 @@ func c02ScannerSelfTest() error {
 	u, sd := base64.URLEncoding, base64.StdEncoding
 	plant := map[string]string{
 		"plain":                     "x" + email + "y",
+		"jwt plain":                 "|" + idt[5:90] + "|",
+		"jwt b64":                   sd.EncodeToString([]byte("z" + idt[3:])),
+		"jwt b64(lz4(msgpack))":     u.EncodeToString(c02SelfLZ4(c02SelfPack(map[string]interface{}{"it": idt}))) + "|17|x",
 		"hex":                       hex.EncodeToString([]byte("pad" + at)),
 		"b64 align0":                u.EncodeToString([]byte(email)) + "|1700000000|c2ln",
 		"b64 align1":                sd.EncodeToString([]byte("1" + email)),
@@ -340,4 +358,14 @@ func c02ScannerSelfTest() error {
 		}
 	}
 	return nil
+}
+
+func c02SelfPack(v interface{}) []byte { b, _ := msgpack.Marshal(v); return b }
+
+func c02SelfLZ4(b []byte) []byte {
+	var zb bytes.Buffer
+	zw := lz4.NewWriter(&zb)
+	_, _ = zw.Write(b)
+	_ = zw.Close()
+	return zb.Bytes()
 }
